@@ -298,6 +298,13 @@ func RAOpts(r *rand.Rand, mac refdec.MAC) []refdec.NDPOpt {
 	if r.Intn(2) == 0 {
 		o = append(o, refdec.OptMTUv(uint32(1280+r.Intn(8000))))
 	}
+	if r.Intn(8) == 0 {
+		// an MTU option of the wrong length (two units instead of one) with a plausible value where the MTU would be: to be
+		// ignored, also when a valid one came before it
+		b := make([]byte, 14)
+		b[2], b[3], b[4], b[5] = 0, 0, 0x23, 0x28 // 9000
+		o = append(o, refdec.NDPOpt{Type: refdec.OptMTU, Len: 2, Body: b})
+	}
 	if r.Intn(2) == 0 {
 		x := refdec.RDNSS{Lifetime: r.Uint32()}
 		n := 1 + r.Intn(3)
